@@ -24,17 +24,20 @@ pub fn all_strings(alphabet: &[char], maxlen: usize, f: &mut dyn FnMut(&str)) {
     let mut cur = String::new();
     rec(alphabet, maxlen, &mut cur, f);
 }
+// single-character case mappings (the name pool avoids characters whose mapping is longer than one character)
+pub fn up(c: char) -> char { let mut i = c.to_uppercase(); let u = i.next().unwrap(); if i.next().is_some() { c } else { u } }
+pub fn low(c: char) -> char { let mut i = c.to_lowercase(); let l = i.next().unwrap(); if i.next().is_some() { c } else { l } }
 pub fn case_patterns(name: &str, f: &mut dyn FnMut(&str)) {
     let cs: Vec<char> = name.chars().collect();
     for mask in 0..(1u32 << cs.len()) {
-        let s: String = cs.iter().enumerate().map(|(i, c)| if mask >> i & 1 == 1 { c.to_ascii_uppercase() } else { c.to_ascii_lowercase() }).collect();
+        let s: String = cs.iter().enumerate().map(|(i, c)| if mask >> i & 1 == 1 { up(*c) } else { low(*c) }).collect();
         f(&s);
     }
 }
 pub fn probe_enum<E>(r: &mut R, names: &[&str], enum_name: &str, maxlen: usize, idx: fn(&E) -> usize)
 where E: ::core::str::FromStr<Err = derive_more::FromStrError> {
     let mut alphabet: Vec<char> = Vec::new();
-    for n in names { for c in n.chars() { for d in [c.to_ascii_lowercase(), c.to_ascii_uppercase()] { if !alphabet.contains(&d) { alphabet.push(d); } } } }
+    for n in names { for c in n.chars() { for d in [low(c), up(c)] { if !alphabet.contains(&d) { alphabet.push(d); } } } }
     for c in ['_', ' ', '#', 'r', 'R'] { if !alphabet.contains(&c) { alphabet.push(c); } }
     let want_err = format!("Invalid `{}` string representation", enum_name);
     let mut one = |s: &str| {
@@ -49,7 +52,7 @@ where E: ::core::str::FromStr<Err = derive_more::FromStrError> {
     all_strings(&alphabet, maxlen, &mut one);
     for n in names {
         case_patterns(n, &mut one);
-        for k in 0..=n.len() { one(&n[..k]); }
+        for k in 0..=n.len() { if n.is_char_boundary(k) { one(&n[..k]); } }
         for c in &alphabet { let mut s = n.to_string(); s.push(*c); one(&s); let mut t = c.to_string(); t.push_str(n); one(&t); }
         one(&format!("r#{}", n));
         one(&format!(" {}", n)); one(&format!("{} ", n)); one(&format!("{}\n", n));
@@ -139,6 +142,9 @@ def run(chk, tier):
     for sub in (["r#type", "r#Type", "TYPE"], ["r#fn", "Fn", "FN", "Foo"], ["r#type", "Type"]):
         cases.append(enum_case("e%d" % len(cases), list(sub), maxlen))
     cases.append(enum_case("e%d" % len(cases), ["A", "Foo"], maxlen, enum_name="r#Type"))
+    # non-ASCII identifiers: "ignoring case" is not an ASCII-only notion
+    for sub in (["Ärger", "Foo"], ["über", "ÜBER", "Bar"], ["Élan", "élan", "ÉLAN"], ["Ωmega"], ["Ärger", "über", "Élan", "Foo", "foo"]):
+        cases.append(enum_case("e%d" % len(cases), list(sub), 2 if len(sub) > 3 else 3))
     ne = len(cases)
     chk.part("enums", name_pool=NAMES, subset_sizes=list(sizes), programs=ne,
              strings="all strings of length <= %d over the names' letters in both cases + '_',' ','#','r','R'; all case patterns, prefixes, 1-char extensions, r#-prefixed and whitespace-padded forms of every name; 8 non-ASCII probes" % maxlen)
@@ -166,5 +172,5 @@ def run(chk, tier):
             kind = "rejected-own-name" if "rejected but the rule selects" in first else ("accepted-wrong" if "accepted as" in first else "other")
             chk.violation("wrong-result %s %s raw=%s" % (c.meta["kind"], kind, raw), c.meta["src"], res.detail)
     chk.part("engine", bins_built=eng.bins_built, rounds=eng.rounds, build_s=round(eng.build_s, 1))
-    chk.assumptions += ["case-insensitivity is Unicode lower-casing equality (str::to_lowercase), the natural reading of the documented rule; variant names are ASCII",
+    chk.assumptions += ["case-insensitivity is Unicode lower-casing equality (str::to_lowercase), the natural reading of the documented rule; the non-ASCII names of the pool have one-character case mappings",
                         "the name of a raw identifier `r#fn` is `fn`"]
